@@ -441,7 +441,7 @@ func cmdCheck(args []string) int {
 	ev := Evidence{
 		PropertyID: prop.ID, Tier: o.tier, Seed: seedFromEnv(), Level: "other",
 		Coverage: cov, Assumptions: append([]string{"deterministic analysis: the seed is recorded but unused",
-			"normalisation (E0): calls to module functions that are not in known_functions.txt are inlined into their callers in memory before the rules run, and a vocabulary function that is missing while one new function of its package has its name is taken to be that function; the inliner's rewrites (continuations, result temporaries, deferred bodies run at the returns, hoisted calls) are trusted to preserve behaviour; on a tree that adds no function nothing is rewritten (coverage.notes lists what was done on this run)"}, assumptions...),
+			"normalisation (E0): calls to module functions that are not in known_functions.txt are inlined into their callers in memory before the rules run, and a vocabulary function that is missing while one new function of its package has its name is taken to be that function; locals of struct types that are not in known_types.txt and are used only through their fields and whole-value copies are split into one local per field; the inliner's rewrites (continuations, result temporaries, deferred bodies run at the returns, hoisted calls, split short-circuit conditions) are trusted to preserve behaviour; on a tree that adds no function and no type nothing is rewritten (coverage.notes lists what was done on this run)"}, assumptions...),
 		WallS: elapsed(t0), Violations: len(out.violations),
 	}
 	if err := writeJSON(filepath.Join(o.verif, "evidence", prop.ID+".json"), ev); err != nil {
